@@ -145,7 +145,7 @@ class C15(Prop):
                 return rng.choice(amb + ['nope'])
             pool = uniq if pool is None else pool
             return rng.choice(pool) if pool else 'nope'
-        kinds = ['select', 'select', 'withColumn', 'filter', 'drop', 'rename', 'rename', 'join', 'join', 'crossJoin', 'union', 'agg', 'agg',
+        kinds = ['select', 'select', 'withColumn', 'filter', 'drop', 'dropRef', 'rename', 'rename', 'join', 'join', 'crossJoin', 'union', 'agg', 'agg',
                  'pivot', 'pivot', 'pivot', 'sort', 'limit', 'distinct', 'sample', 'repartition']
         if tr.nrows > 25:
             kinds = [k for k in kinds if k not in ('join', 'crossJoin', 'union')]
@@ -189,6 +189,13 @@ class C15(Prop):
             keep = [i for i, n in enumerate(names) if not (n in cols and names.count(n) == 1)]
             tr.names, tr.types = [names[i] for i in keep], [types[i] for i in keep]
             return {'op': 'drop', 'cols': cols}
+        if kind == 'dropRef':
+            # drop through a bound column reference (df[i]): exactly that ONE column goes, also when its name occurs twice
+            if not names:
+                return {'op': 'limit', 'n': 2}
+            i = rng.randrange(len(names))
+            tr.names, tr.types = names[:i] + names[i + 1:], types[:i] + types[i + 1:]
+            return {'op': 'dropRef', 'pos': i}
         if kind == 'rename':
             old = rng.choice(names + ['zz'])
             new = rng.choice(names + ['r', 'q'])
@@ -327,6 +334,8 @@ class C15(Prop):
                                 {'op': 'limit', 'n': 4}]},
             {'src': t3, 'ops': [{'op': 'union', 'other': dict(t3, names=['v', 's', 'k'])}, {'op': 'distinct'}]},
             {'src': dict(t3, rows=t3['rows'] * 6), 'ops': [{'op': 'sample', 'fraction': .5, 'seed': None}, {'op': 'limit', 'n': 30}]},
+            {'src': t3, 'ops': [{'op': 'crossJoin', 'other': t2}, {'op': 'dropRef', 'pos': 0}, {'op': 'distinct'}]},
+            {'src': t3, 'ops': [{'op': 'rename', 'old': 'k', 'new': 's'}, {'op': 'dropRef', 'pos': 1}]},
             {'src': {'range': [1, 7, 2], 'parts': 3}, 'ops': [{'op': 'withColumn', 'name': 'id', 'e': {'op': 'mul', 'a': col(0), 'b': col(0)}}]},
         ]
         for how in HOWS:
@@ -364,6 +373,16 @@ class C15(Prop):
                 'rdd': [[G.sv(v) for v in r] for r in df.rdd.collect()]}
 
     @staticmethod
+    def id_duplicates(df):
+        """do two columns of the frame carry the same internal field id (same source field selected twice, self join)?"""
+        try:
+            ids = [getattr(f, 'id', None) for f in df._jdf.bound_schema.fields]      # pylint: disable=protected-access
+        except Exception:  # pylint: disable=broad-except
+            return False
+        ids = [i for i in ids if i is not None]
+        return len(set(ids)) < len(ids)
+
+    @staticmethod
     def direct(o):
         """the property itself, on what the real DataFrame shows"""
         cols = o['columns']
@@ -391,15 +410,17 @@ class C15(Prop):
                 elif it['k'] == 'col':
                     items.append(it['c'])
                 else:
-                    c = G.to_column(it['e'], names)
+                    c = G.to_column(it['e'], names, self._colcache)
                     items.append(c.alias(it['alias']) if it['alias'] is not None else c)
             return df.select(*items)
         if k == 'withColumn':
-            return df.withColumn(op['name'], G.to_column(op['e'], names))
+            return df.withColumn(op['name'], G.to_column(op['e'], names, self._colcache))
         if k == 'filter':
-            return df.filter(G.to_column(op['e'], names))
+            return df.filter(G.to_column(op['e'], names, self._colcache))
         if k == 'drop':
             return df.drop(*op['cols'])
+        if k == 'dropRef':
+            return df.drop(df[op['pos']])
         if k == 'rename':
             return df.withColumnRenamed(op['old'], op['new'])
         if k == 'join':
@@ -437,6 +458,7 @@ class C15(Prop):
 
     def run_case(self, case, ctx):
         src = case['src']
+        self._colcache = {}          # one Column object per column name for the whole chain
         ctx.note('len:%d' % len(case['ops']))
         try:
             if 'range' in src:
@@ -466,6 +488,10 @@ class C15(Prop):
                 err = exc(e)
             # ---- model step from the real previous frame
             mop = dict(op)
+            if k == 'dropRef':
+                # in the model: the projection on the remaining positions (un-aliased column references keep their names)
+                mop = {'op': 'select', 'items': [{'k': 'expr', 'alias': None, 'e': {'op': 'col', 'i': j}}
+                                                 for j in range(len(prev['columns'])) if j != op['pos']]}
             if k in ('join', 'crossJoin', 'union'):
                 o = op['other']
                 mop['other'] = {'names': prev['columns'], 'rows': prev['rows']} if o == 'self' else {'names': o['names'], 'rows': o['rows']}
@@ -490,13 +516,22 @@ class C15(Prop):
                 if 'refused' in r:
                     ctx.note('refused:' + r['refused'])
                     return None          # both sides reject the operation: no DataFrame was obtained
-                if k == 'withColumn' and len(set(prev['columns'])) < len(prev['columns']):
+                if k in ('withColumn', 'dropRef') and self.id_duplicates(df):
                     # replacing a column re-selects every field by its internal id; two columns that stem from the same
                     # source field (select('*', '*'), self join) share an id and make that ambiguous. Ids are not modelled.
                     ctx.note('withColumn-id-ambiguity')
                     return None
                 return Mismatch('step %d %s raised but the model computes a frame' % (step, k), err, {'names': r['names']},
                                 'C15:model:exc:' + k, relation='model-only')
+            if k == 'dropRef' and self.id_duplicates(df):
+                # two columns stemming from the same source field share an internal id: a bound reference to one of them is
+                # ambiguous and drop() ignores it. Ids are not modelled: the direct check below still runs, the model step not
+                bad = self.direct(cur)
+                if bad:
+                    return Mismatch('step %d after %s: %s' % (step, k, bad), {'columns': cur['columns'], 'schema': cur['schema']}, None,
+                                    'C15:direct:' + k, relation='spec')
+                ctx.note('dropRef-id-ambiguity')
+                return None
             # ---- the property itself
             bad = self.direct(cur)
             if bad:
